@@ -280,7 +280,7 @@ class Builder:
                 self.bind(s.target, self.snap(self.ev(s.value, env, ctx)), env, ctx)
         elif isinstance(s, ast.AugAssign):
             cur = self.ev(_load(s.target), env, ctx)
-            v = ("bin", type(s.op).__name__, cur, self.ev(s.value, env, ctx))
+            v = self.mk_bin(type(s.op).__name__, cur, self.ev(s.value, env, ctx))
             self.bind(s.target, v, env, ctx)
         elif isinstance(s, ast.Return):
             raise _Return(self.snap(self.ev(s.value, env, ctx)) if s.value is not None else NONE)
@@ -531,7 +531,8 @@ class Builder:
                         self.bind(e, self.item(v, -(after - j)), env, ctx)
         elif isinstance(t, ast.Attribute):
             base = self.ev(t.value, env, ctx)
-            if base == ("param", self.cur_self_param) and self.depth == 0:
+            if base == ("param", self.cur_self_param):
+                # also inside an inlined method of the same object (a helper that assigns self.x updates the same object)
                 self.self_attrs[t.attr] = v
             elif isinstance(base, SelfObj):
                 base.attrs[t.attr] = v
@@ -630,7 +631,7 @@ class Builder:
         if isinstance(e, ast.Attribute):
             return self.attr(self.ev(e.value, env, ctx), e.attr, ctx)
         if isinstance(e, ast.BinOp):
-            return ("bin", type(e.op).__name__, self.ev(e.left, env, ctx), self.ev(e.right, env, ctx))
+            return self.mk_bin(type(e.op).__name__, self.ev(e.left, env, ctx), self.ev(e.right, env, ctx))
         if isinstance(e, ast.UnaryOp):
             v = self.ev(e.operand, env, ctx)
             op = type(e.op).__name__
@@ -823,7 +824,7 @@ class Builder:
                 if r is None:
                     return ("attr", base, name)
                 return self.func_ref(r[0], r[1], ("param", base[3]), dyn_cls=dyn)
-            if k == "param" and base[1] == getattr(self, "cur_self_param", None) and self.depth == 0:
+            if k == "param" and base[1] == getattr(self, "cur_self_param", None):
                 if name in self.self_attrs:
                     return self.self_attrs[name]
             ci = self.type_of(base)
@@ -970,6 +971,8 @@ class Builder:
                 q = f[1]
                 if q.startswith("lerax.") and (q in COND or q in SCAN):
                     self.lowered_idioms.add(q)
+                if q in ("jax.tree.map", "jax.tree_util.tree_map", "jax.debug.callback", "jax.experimental.io_callback") and args:
+                    args = (self.fnval(args[0]),) + tuple(args[1:])
                 if q in COND and len(args) >= 3:
                     ops = args[3:]
                     okw = tuple((a, b) for a, b in kwargs)
@@ -982,17 +985,17 @@ class Builder:
                     names = ["f", "init", "xs", "length", "reverse"]
                     b = dict(zip(names, args))
                     b.update(kw)
-                    return ("scan", b.get("f"), b.get("init", NONE), b.get("xs", NONE), b.get("length", NONE), b.get("reverse", FALSE))
+                    return ("scan", self.fnval(b.get("f")), b.get("init", NONE), b.get("xs", NONE), b.get("length", NONE), b.get("reverse", FALSE))
                 if q in WHILE and len(args) == 3:
-                    return ("while", args[0], args[1], args[2])
+                    return ("while", self.fnval(args[0]), self.fnval(args[1]), args[2])
                 if q in TREE_AT:
                     r = self.tree_at(args, kw)
                     if r is not None:
                         return r
                 if q in GRAD and args:
-                    return ("gradfn", args[0], kw.get("has_aux", FALSE))
+                    return ("gradfn", self.fnval(args[0]), kw.get("has_aux", FALSE))
                 if q in VMAP and args:
-                    return ("vmapfn", args[0], tuple(sorted(kwargs, key=lambda x: str(x[0]))) + tuple(("#%d" % i, a) for i, a in enumerate(args[1:], 1)))
+                    return ("vmapfn", self.fnval(args[0]), tuple(sorted(kwargs, key=lambda x: str(x[0]))) + tuple(("#%d" % i, a) for i, a in enumerate(args[1:], 1)))
                 if q in IDENT_WRAP and len(args) == 1 and not kwargs:
                     return args[0]
                 if q in PARTIAL and args:
@@ -1028,6 +1031,52 @@ class Builder:
         if isinstance(f, tuple) and f[0] == "attr":
             self.unresolved_calls += 1
         return ("call", f, args, kwargs)
+
+    def fnval(self, f, depth=0):
+        """Normal form of a function value handed to scan / vmap / grad / tree.map / while: a module-level function of the package and
+        a functools.partial of a function become closures, so that rules (and the normaliser) treat `scan(body, ...)` alike whether
+        `body` is a nested def, a lambda, a module-level helper or a partial application. Methods keep their own representation."""
+        if isinstance(f, Closure) or depth > 3:
+            return f
+        if isinstance(f, tuple) and f and f[0] == "global":
+            mod, _, fname = f[1].rpartition(".")
+            mm = self.prog.modules.get(mod)
+            if mm is not None and fname in mm.functions and mod.startswith(self.prog.package):
+                return Closure(mm.functions[fname], {}, Ctx(mm, None, mm.functions[fname]), fname, qualname=None)
+            return f
+        if isinstance(f, tuple) and f and f[0] == "partial":
+            inner = self.fnval(f[1], depth + 1)
+            if not isinstance(inner, Closure) and not (isinstance(inner, tuple) and inner and inner[0] in ("attr", "global")):
+                return f
+            kwnames = [k for k, v in f[3] if k is not None]
+            if len(kwnames) != len(f[3]):
+                return f
+            src = "lambda *__a, **__k: __f(" + ", ".join([f"__b{i}" for i in range(len(f[2]))] + ["*__a"] + [f"{k}=__kw_{k}" for k in kwnames] + ["**__k"]) + ")"
+            if isinstance(inner, Closure) and inner.args.vararg is None and inner.args.kwarg is None and not any(isinstance(x, tuple) and x and x[0] == "star" for x in f[2]):
+                # the remaining parameters are spelled out (those the partial leaves open, none of which has a default), so that the
+                # partial application has the same arity, parameter names and normal form as the nested def / lambda it replaces
+                a_ = inner.args
+                pos = [x.arg for x in a_.posonlyargs + a_.args]
+                if inner.bound_self is not None and pos:
+                    pos = pos[1:]
+                ndef = len(a_.defaults)
+                has_default = set(pos[len(pos) - ndef:] if ndef else []) | {x.arg for x, d_ in zip(a_.kwonlyargs, a_.kw_defaults) if d_ is not None}
+                rest = [nm for nm in pos[len(f[2]):] if nm not in kwnames]
+                kwrest = [x.arg for x in a_.kwonlyargs if x.arg not in kwnames]
+                if len(f[2]) <= len(pos) and not (set(rest + kwrest) & has_default) and not any(nm.startswith("__") for nm in rest + kwrest):
+                    src = "lambda " + ", ".join(rest + (["*"] + kwrest if kwrest else [])) + ": __f(" + ", ".join(
+                        [f"__b{i}" for i in range(len(f[2]))] + rest + [f"{k}=__kw_{k}" for k in kwnames] + [f"{k}={k}" for k in kwrest]) + ")"
+            lam = ast.parse(src, mode="eval").body
+            env = {"__f": inner}
+            for i, v in enumerate(f[2]):
+                env[f"__b{i}"] = v
+            for k, v in f[3]:
+                env[f"__kw_{k}"] = v
+            mods = list(self.prog.modules.values())
+            c = Closure(lam, env, Ctx(mods[0], None, None), "<partial>")
+            c.snapped = True
+            return c
+        return f
 
     def call_closure(self, f: Closure, args, kwargs, lineno=0):
         """Call of a function value: inline locals always; methods/functions per policy."""
@@ -1249,6 +1298,13 @@ class Builder:
                 d[p[0]] = v
             return ("record", base[1], tuple(sorted(d.items())))
         return ("update", base, tuple(sorted(dict(items).items())))
+
+    def mk_bin(self, op, a, b):
+        """Binary operation node; the concatenation of two statically known sequences of one kind is folded (`fields += [...]`)."""
+        if op == "Add" and isinstance(a, tuple) and isinstance(b, tuple) and a and b and a[0] == b[0] and a[0] in ("list", "tuple") \
+                and not any(isinstance(x, tuple) and x and x[0] == "star" for x in a[1] + b[1]):
+            return (a[0], a[1] + b[1])
+        return ("bin", op, a, b)
 
     def mk_ite(self, p, a, b):
         if a == b:
